@@ -188,6 +188,12 @@ func execMembership(t *testing.T, p *Plan) *Result {
 		}
 		pos := map[string]int{}
 		ambiguous := map[string]bool{}
+		type pinnedDialog struct {
+			ids     dlgIDs
+			backend string
+			step    string
+		}
+		var pinnedDialogs []pinnedDialog
 		// script entry k answers the lookups made around t = 2k s: entry 0 is the start-up resolution
 		// (and the poll loop's first round if the scheduler lets it run at the same instant)
 		for _, n := range names {
@@ -250,6 +256,25 @@ func execMembership(t *testing.T, p *Plan) *Result {
 			}
 			S := modelSet()
 			sig := fmt.Sprintf("scheme=%s;names=%d", scheme, len(names))
+			// (0) dialogs pinned in earlier steps stay with their backend whatever the rotation looks like now - also
+			// when that backend has been withdrawn meanwhile (then the request may be lost with it, but it is never
+			// handed to somebody else): C04's "to that same backend and to no other"
+			for k, pd := range pinnedDialogs {
+				if pd.step == step {
+					continue
+				}
+				id := send("INFO", pd.ids, reqOpts{cseq: 50 + k})
+				w.Stats["judged:C04"]++
+				for _, dst := range destOf(id) {
+					if dst != pd.backend {
+						still := false
+						for _, m := range S {
+							still = still || m == pd.backend
+						}
+						v("C04", "in-dialog-request-left-its-backend", step, fmt.Sprintf("%s;withdrawn=%v", sig, !still), "a dialog pinned to %s at %s: after %s (rotation %v) its INFO was sent to %s", pd.backend, pd.step, step, S, dst)
+					}
+				}
+			}
 			// (a) dispatch probe + rotation (C05)
 			n := 2*len(S) + 1
 			var targets []string
@@ -343,6 +368,9 @@ func execMembership(t *testing.T, p *Plan) *Result {
 						}
 						w.Stats["judged:C19"]++
 						asig := fmt.Sprintf("%s;member=%v", sig, member)
+						if member && at == total && total > 0 {
+							pinnedDialogs = append(pinnedDialogs, pinnedDialog{ids2, from, step})
+						}
 						if member && at != total {
 							v("C19", "answer-from-member-not-attributed", step, asig, "after %s a 2xx from %s (in rotation %v) must bind the dialog to it, but only %d of %d in-dialog requests reached it", step, from, S, at, total)
 						}
